@@ -1359,3 +1359,26 @@ Proof. vm_compute. reflexivity. Qed.
     stated only for the monitor's executable check *)
 Lemma tree_ok_T g : tree_ok g = true -> T g root (-1) 1002.
 Proof. apply (bst_ok_T 24). Qed.
+
+(** ** consequence: no key is present twice — two leaves of a [T]-tree with the same key are the same leaf *)
+Lemma T_leaves_distinct g : forall n lo hi, T g n lo hi -> forall x y,
+  insub g n x -> insub g n y -> ~ internal g x -> ~ internal g y -> node_key g x = node_key g y -> x = y.
+Proof.
+  induction 1 as [n lo hi Hl Hk|n lo hi Hi Hk H1 IH1 H2 IH2]; intros x y Hx Hy Lx Ly E.
+  - destruct (insub_inv _ _ _ Hx) as [->|(X & _)]; [|contradiction]. destruct (insub_inv _ _ _ Hy) as [->|(X & _)]; [reflexivity|contradiction].
+  - destruct (insub_inv _ _ _ Hx) as [->|(_ & Sx)]; [contradiction|]. destruct (insub_inv _ _ _ Hy) as [->|(_ & Sy)]; [contradiction|].
+    destruct Sx as [Sx|Sx], Sy as [Sy|Sy].
+    + now apply IH1.
+    + pose proof (T_keys _ _ _ _ H1 _ Sx). pose proof (T_keys _ _ _ _ H2 _ Sy). lia.
+    + pose proof (T_keys _ _ _ _ H2 _ Sx). pose proof (T_keys _ _ _ _ H1 _ Sy). lia.
+    + now apply IH2.
+Qed.
+
+Theorem ellen_no_duplicate_keys fuel keys ths c x y :
+  init_check (init keys) = true -> Forall (Forall op_ok) ths -> (List.length ths <= 63)%nat ->
+  Conc.reach (init_cfg fuel keys ths) c ->
+  insub (Conc.shared c) root x -> insub (Conc.shared c) root y ->
+  ~ internal (Conc.shared c) x -> ~ internal (Conc.shared c) y -> node_key (Conc.shared c) x = node_key (Conc.shared c) y -> x = y.
+Proof.
+  intros Hi Ho Hlen Hr. eapply T_leaves_distinct. eapply ellen_bst_invariant; eauto.
+Qed.
